@@ -103,7 +103,7 @@ example : isPlainRepr "100000.0".toList = true ∧ isPlainRepr "-0.0".toList = t
 
 /-! ## 2. Element order per node builder
 
-`XmlW.<builder>Kids` is the sequence of child-element names the builder emits (CRModel/CRXml.lean, tied to the code by the
+`XmlW.<builder>Kids` is the sequence of child-element names the builder emits (CRModel/CRXmlW.lean, tied to the code by the
 correspondence op `kids`).  Each theorem: for ALL shapes of the object that the schema can express (the hypotheses are the
 `minOccurs` the XSD itself demands: ≥ 2 bound points, ≥ 3 polygon vertices, ≥ 1 lanelet, …) the emitted sequence matches
 the content model of the complex type in the regenerated schema. -/
@@ -117,8 +117,11 @@ macro "kids_eq" defs:Lean.Parser.Tactic.simpLemma,* : tactic =>
   `(tactic| (simp only [$defs,*, blocksN, CR.XmlW.rep, CR.XmlW.opt, List.map, Cnt.val] <;> (try split) <;> simp))
 
 theorem C03_order_point (z : Bool) : Ok "point" (pointKids z) := by cases z <;> decide
-theorem C03_order_rectangle (dyn : Bool) : Ok "rectangle" (rectangleKids dyn) := by cases dyn <;> decide
-theorem C03_order_circle (dyn : Bool) : Ok "circle" (circleKids dyn) := by cases dyn <;> decide
+/-- rectangles and circles, also as shapes of dynamic obstacles with any combination of a non-default orientation / center -/
+theorem C03_order_rectangle (dyn oriSet ctrSet : Bool) : Ok "rectangle" (rectangleKids dyn oriSet ctrSet) := by
+  cases dyn <;> cases oriSet <;> cases ctrSet <;> decide
+theorem C03_order_circle (dyn ctrSet : Bool) : Ok "circle" (circleKids dyn ctrSet) := by
+  cases dyn <;> cases ctrSet <;> decide
 
 theorem C03_order_polygon (n : Nat) (h : 3 ≤ n) : Ok "polygon" (polygonKids n) :=
   order_of (by decide) ["point"] (by decide) [.ge 3 n h] (by rfl) (by kids_eq polygonKids)
@@ -299,10 +302,10 @@ theorem C03_goal_state_all (attrs : List String) (hnd : (stateKids attrs).Nodup)
         rw [e]; exact h)
     (by intro r hr; simp at hr; subst hr; exact hreq)
 
-/-- signal states: `time` first, then whichever of the five flags are set (all 32 combinations) -/
-theorem C03_signal_state_all (il ir bl hz fb : Bool) :
-    Ok "signalState" (signalStateKids il ir bl hz fb) ∧ Ok "initialSignalState" (signalStateKids il ir bl hz fb) := by
-  cases il <;> cases ir <;> cases bl <;> cases hz <;> cases fb <;> decide
+/-- signal states: `time` first, then whichever of the six flags (horn included) are set (all 64 combinations) -/
+theorem C03_signal_state_all (horn il ir bl hz fb : Bool) :
+    Ok "signalState" (signalStateKids horn il ir bl hz fb) ∧ Ok "initialSignalState" (signalStateKids horn il ir bl hz fb) := by
+  cases horn <;> cases il <;> cases ir <;> cases bl <;> cases hz <;> cases fb <;> decide
 
 /-- scenario tags: a set of tags (no duplicates) whose values the `tag` type declares -/
 theorem C03_tags_all (tags : List String) (hnd : tags.Nodup)
@@ -433,25 +436,50 @@ theorem C03_valid_point (tag : String) (x y : Str) (z : Option Str) (hx : isDeci
     simp only [List.cons_append, List.nil_append, validKids, valid_decimal_leaf _ _ hx, valid_decimal_leaf _ _ hy,
       valid_decimal_leaf _ _ (hz z' rfl), Bool.and_self]
 
-theorem C03_valid_rectangle (l w : Str) (oc : Option (Str × Str × Str)) (hl : PosDec l) (hw : PosDec w)
-    (hoc : ∀ o cx cy, oc = some (o, cx, cy) → isDecimal o = true ∧ isDecimal cx = true ∧ isDecimal cy = true) :
-    validNode schema "rectangle" (rectangleNode l w oc) = true := by
+/-- rectangles with any combination of orientation / center present (static shapes: both; shapes of dynamic obstacles:
+    each only when it is not the default) -/
+theorem C03_valid_rectangle (l w : Str) (o : Option Str) (c : Option (Str × Str)) (hl : PosDec l) (hw : PosDec w)
+    (ho : ∀ o', o = some o' → isDecimal o' = true)
+    (hc : ∀ cx cy, c = some (cx, cy) → isDecimal cx = true ∧ isDecimal cy = true) :
+    validNode schema "rectangle" (rectangleNode l w o c) = true := by
   have hlk : schema.lookup "rectangle" = some (.complex [] false (schema.content "rectangle")) := by decide
-  cases oc with
+  cases o with
   | none =>
-    have hm : matchGroup (schema.content "rectangle") ["length", "width"] = some ["positiveDecimal", "positiveDecimal"] := by decide
-    rw [rectangleNode, validNode_complex hlk (ts := ["positiveDecimal", "positiveDecimal"]) (by rfl)
-      (by simpa [leaf, Xml.name] using hm)]
-    simp only [List.append_nil, validKids, valid_posdecimal_leaf _ _ hl, valid_posdecimal_leaf _ _ hw, Bool.and_self]
-  | some t =>
-    obtain ⟨o, cx, cy⟩ := t
-    obtain ⟨ho, hcx, hcy⟩ := hoc o cx cy rfl
-    have hm : matchGroup (schema.content "rectangle") ["length", "width", "orientation", "center"] =
-        some ["positiveDecimal", "positiveDecimal", "xs:decimal", "point"] := by decide
-    rw [rectangleNode, validNode_complex hlk (ts := ["positiveDecimal", "positiveDecimal", "xs:decimal", "point"]) (by rfl)
-      (by simpa [leaf, pointNode, Xml.name] using hm)]
-    simp only [List.cons_append, List.nil_append, validKids, valid_posdecimal_leaf _ _ hl, valid_posdecimal_leaf _ _ hw,
-      valid_decimal_leaf _ _ ho, C03_valid_point "center" cx cy none hcx hcy (by intro _ h; cases h), Bool.and_self]
+    cases c with
+    | none =>
+      have hm : matchGroup (schema.content "rectangle") ["length", "width"] = some ["positiveDecimal", "positiveDecimal"] := by decide
+      rw [rectangleNode, validNode_complex hlk (ts := ["positiveDecimal", "positiveDecimal"]) (by rfl)
+        (by simpa [leaf, Xml.name] using hm)]
+      simp only [List.append_nil, validKids, valid_posdecimal_leaf _ _ hl, valid_posdecimal_leaf _ _ hw, Bool.and_self]
+    | some t =>
+      obtain ⟨cx, cy⟩ := t
+      obtain ⟨hcx, hcy⟩ := hc cx cy rfl
+      have hm : matchGroup (schema.content "rectangle") ["length", "width", "center"] =
+          some ["positiveDecimal", "positiveDecimal", "point"] := by decide
+      rw [rectangleNode, validNode_complex hlk (ts := ["positiveDecimal", "positiveDecimal", "point"]) (by rfl)
+        (by simpa [leaf, pointNode, Xml.name] using hm)]
+      simp only [List.append_nil, List.cons_append, List.nil_append, validKids, valid_posdecimal_leaf _ _ hl,
+        valid_posdecimal_leaf _ _ hw, C03_valid_point "center" cx cy none hcx hcy (by intro _ h; cases h), Bool.and_self]
+  | some o' =>
+    have ho' := ho o' rfl
+    cases c with
+    | none =>
+      have hm : matchGroup (schema.content "rectangle") ["length", "width", "orientation"] =
+          some ["positiveDecimal", "positiveDecimal", "xs:decimal"] := by decide
+      rw [rectangleNode, validNode_complex hlk (ts := ["positiveDecimal", "positiveDecimal", "xs:decimal"]) (by rfl)
+        (by simpa [leaf, Xml.name] using hm)]
+      simp only [List.append_nil, List.cons_append, List.nil_append, validKids, valid_posdecimal_leaf _ _ hl,
+        valid_posdecimal_leaf _ _ hw, valid_decimal_leaf _ _ ho', Bool.and_self]
+    | some t =>
+      obtain ⟨cx, cy⟩ := t
+      obtain ⟨hcx, hcy⟩ := hc cx cy rfl
+      have hm : matchGroup (schema.content "rectangle") ["length", "width", "orientation", "center"] =
+          some ["positiveDecimal", "positiveDecimal", "xs:decimal", "point"] := by decide
+      rw [rectangleNode, validNode_complex hlk (ts := ["positiveDecimal", "positiveDecimal", "xs:decimal", "point"]) (by rfl)
+        (by simpa [leaf, pointNode, Xml.name] using hm)]
+      simp only [List.cons_append, List.nil_append, validKids, valid_posdecimal_leaf _ _ hl,
+        valid_posdecimal_leaf _ _ hw, valid_decimal_leaf _ _ ho', C03_valid_point "center" cx cy none hcx hcy (by intro _ h; cases h),
+        Bool.and_self]
 
 theorem C03_valid_circle (r : Str) (c : Option (Str × Str)) (hr : PosDec r)
     (hc : ∀ cx cy, c = some (cx, cy) → isDecimal cx = true ∧ isDecimal cy = true) :
@@ -516,44 +544,57 @@ theorem sci_contains_e {s : Str} (h : isSciRepr s = true) (hlower : s.any (· ==
 
 /-- **end to end for a rectangle**: whatever finite positive length and width, finite orientation and centre, and
     precision `p` — the `<rectangle>` subtree the writer emits (lengths and orientation through `decimal_to_str`, centre
-    through `float_to_str`) is valid against the schema's `rectangle` type, down to every leaf. -/
-theorem C03_written_rectangle_valid (l w o cx cy : FloatRepr) (p : Nat)
+    through `float_to_str`) is valid against the schema's `rectangle` type, down to every leaf; `withOri` / `withCtr` say
+    whether orientation / center are written (both outside dynamic-obstacle shapes, each iff non-default inside them). -/
+theorem C03_written_rectangle_valid (l w o cx cy : FloatRepr) (p : Nat) (withOri withCtr : Bool)
     (hl : l.Finite ∧ l.Positive) (hw : w.Finite ∧ w.Positive) (ho : o.Finite)
     (hcx : isPlainRepr cx.repr = true ∨ cx.repr.contains 'e' = true)
     (hcy : isPlainRepr cy.repr = true ∨ cy.repr.contains 'e' = true) :
     validNode schema "rectangle"
       (rectangleNode (decimalToStr l.repr) (decimalToStr w.repr)
-        (some (decimalToStr o.repr, floatToStr cx.repr cx.neg cx.num cx.den p, floatToStr cy.repr cy.neg cy.num cy.den p))) = true := by
+        (if withOri then some (decimalToStr o.repr) else none)
+        (if withCtr then some (floatToStr cx.repr cx.neg cx.num cx.den p, floatToStr cy.repr cy.neg cy.num cy.den p) else none)) = true := by
   have pl := decimalToStr_positive hl.1 hl.2.1 hl.2.2
   have pw := decimalToStr_positive hw.1 hw.2.1 hw.2.2
-  refine C03_valid_rectangle _ _ _ ⟨decimalToStr_isDecimal hl.1, pl.1, pl.2⟩ ⟨decimalToStr_isDecimal hw.1, pw.1, pw.2⟩ ?_
-  intro o' cx' cy' h
-  cases h
-  exact ⟨decimalToStr_isDecimal ho, floatToStr_isDecimal _ _ _ _ _ hcx, floatToStr_isDecimal _ _ _ _ _ hcy⟩
+  refine C03_valid_rectangle _ _ _ _ ⟨decimalToStr_isDecimal hl.1, pl.1, pl.2⟩ ⟨decimalToStr_isDecimal hw.1, pw.1, pw.2⟩ ?_ ?_
+  · intro o' h
+    cases withOri
+    · cases h
+    · cases h; exact decimalToStr_isDecimal ho
+  · intro cx' cy' h
+    cases withCtr
+    · cases h
+    · cases h
+      exact ⟨floatToStr_isDecimal _ _ _ _ _ hcx, floatToStr_isDecimal _ _ _ _ _ hcy⟩
 
 /-- … and for a circle. -/
-theorem C03_written_circle_valid (r cx cy : FloatRepr) (p : Nat) (hr : r.Finite ∧ r.Positive)
+theorem C03_written_circle_valid (r cx cy : FloatRepr) (p : Nat) (withCtr : Bool) (hr : r.Finite ∧ r.Positive)
     (hcx : isPlainRepr cx.repr = true ∨ cx.repr.contains 'e' = true)
     (hcy : isPlainRepr cy.repr = true ∨ cy.repr.contains 'e' = true) :
     validNode schema "circle"
       (circleNode (decimalToStr r.repr)
-        (some (floatToStr cx.repr cx.neg cx.num cx.den p, floatToStr cy.repr cy.neg cy.num cy.den p))) = true := by
+        (if withCtr then some (floatToStr cx.repr cx.neg cx.num cx.den p, floatToStr cy.repr cy.neg cy.num cy.den p) else none)) = true := by
   have pr := decimalToStr_positive hr.1 hr.2.1 hr.2.2
   refine C03_valid_circle _ _ ⟨decimalToStr_isDecimal hr.1, pr.1, pr.2⟩ ?_
   intro cx' cy' h
-  cases h
-  exact ⟨floatToStr_isDecimal _ _ _ _ _ hcx, floatToStr_isDecimal _ _ _ _ _ hcy⟩
+  cases withCtr
+  · cases h
+  · cases h
+    exact ⟨floatToStr_isDecimal _ _ _ _ _ hcx, floatToStr_isDecimal _ _ _ _ _ hcy⟩
 
 -- non-vacuity: a length of 1e-05 m, an orientation of 1e-06 rad and a centre at 1e5 m / 1e-6 m at precision 4
 example : validNode schema "rectangle"
     (rectangleNode (decimalToStr "1e-05".toList) (decimalToStr "2.0".toList)
-      (some (decimalToStr "1e-06".toList, floatToStr "100000.0".toList false 100000 1 4, floatToStr "1e-06".toList false 1 1000000 4)))
+      (some (decimalToStr "1e-06".toList)) (some (floatToStr "100000.0".toList false 100000 1 4, floatToStr "1e-06".toList false 1 1000000 4)))
     = true := by decide
+-- the shape of a dynamic obstacle that is rotated but centred: orientation without center
+example : validNode schema "rectangle"
+    (rectangleNode (decimalToStr "4.5".toList) (decimalToStr "1.8".toList) (some (decimalToStr "1e-06".toList)) none) = true := by decide
 -- … while the strings the unrepaired writer produced are rejected by the same validator
 example : validNode schema "rectangle"
-    (rectangleNode "1e-05".toList "2.0".toList (some ("1e-06".toList, "100000.0".toList, "0.0000".toList))) = false := by decide
+    (rectangleNode "1e-05".toList "2.0".toList (some "1e-06".toList) (some ("100000.0".toList, "0.0000".toList))) = false := by decide
 -- and a length cut to precision 4 would not be a positiveDecimal
-example : validNode schema "rectangle" (rectangleNode "0.0000".toList "2.0".toList none) = false := by decide
+example : validNode schema "rectangle" (rectangleNode "0.0000".toList "2.0".toList none none) = false := by decide
 
 
 /-! ## 6. The whole document
